@@ -4,7 +4,7 @@ import ast
 from ..affine import NF, equal, add, text
 from ..cp import batch, is_zero, row_writers
 from ..common import STEP_FN, step_roles, init_roles
-from ..model import norm, walk_no_nested
+from ..model import norm, walk_no_nested, AnalysisError
 from ..rdef import flow_of, ENTRY
 from ..cfg import node_reads
 
@@ -51,51 +51,13 @@ def run(chk, prog, tier):
         chk.valuation(str(r.config))
 
     # ------------------------------------------------------------ C13.b
-    fi = _find_irrigation(prog)
-    chk.fn(fi.key)
-    where = f"{fi.module}:{fi.qualname}"
-    flow = flow_of(fi)
-    cfg = flow.cfg
-    params = fi.params
-    # role names of the formals (by what the step passes): daily maximum, seasonal maximum, cumulative counter
-    step = prog.func(STEP_FN)
-    call = [c for c, t in prog.calls_in(step) if getattr(t, "key", None) == fi.key]
-    if len(call) != 1:
-        chk.error("C13.b: expected exactly one call of irrigation() in the step")
-        return
-    call = call[0]
-    formal_of = {}
-    for i, a in enumerate(call.args):
-        if isinstance(a, ast.Attribute):
-            formal_of[a.attr] = params[i]
-    need = ["MaxIrr", "MaxIrrSeason", "irr_cum", "irrigation_method"]
-    if any(k not in formal_of for k in need):
-        chk.error(f"C13.b: the step no longer passes {[k for k in need if k not in formal_of]} to irrigation()")
-        return
-    f_max, f_season, f_cum, f_method = (formal_of[k] for k in need)
-    # the returned tuple: which position is Irr and which the counter -> by what the step does with them
-    ret = [n for n in walk_no_nested(fi.node) if isinstance(n, ast.Return)]
-    if len(ret) != 1 or not isinstance(ret[0].value, ast.Tuple):
-        chk.error("C13.b: irrigation() no longer has a single tuple return")
-        return
-    # the caller's targets
-    assign = [n for n in walk_no_nested(step.node) if isinstance(n, ast.Assign) and n.value is call]
-    tg = assign[0].targets[0].elts if assign and isinstance(assign[0].targets[0], ast.Tuple) else []
-    pos_cum = next((i for i, t in enumerate(tg) if isinstance(t, ast.Attribute) and t.attr == "irr_cum"), None)
-    pos_irr = next((i for i, t in enumerate(tg) if isinstance(t, ast.Name) and t.id == "Irr"), None)
-    if pos_cum is None or pos_irr is None:
-        chk.error("C13.b: cannot identify the returned irrigation depth / seasonal counter")
-        return
-    r_irr, r_cum = ret[0].value.elts[pos_irr], ret[0].value.elts[pos_cum]
-    if not (isinstance(r_irr, ast.Name) and isinstance(r_cum, ast.Name)):
-        chk.error("C13.b: returned depth / counter are not plain locals")
-        return
-    irr, cum = r_irr.id, r_cum.id
-    ret_node = flow.stmt_node[id(ret[0])]
+    ctx = irrigation_context(chk, prog)
+    fi, where, flow, cfg, params, step, call, formal_of = (ctx[k] for k in ("fi", "where", "flow", "cfg", "params", "step", "call", "formal_of"))
+    f_max, f_season, f_cum, f_method = (formal_of[k] for k in ["MaxIrr", "MaxIrrSeason", "irr_cum", "irrigation_method"])
+    irr, cum, subst, nf, ret_node = ctx["irr"], ctx["cum"], ctx["subst"], ctx["nf"], ctx["ret_node"]
 
     def def_stmt(d):
         return cfg.nodes[d].ast if d != ENTRY else None
-
     # (1) the clamp
     clamps = [n for n in walk_no_nested(fi.node) if isinstance(n, ast.Assign) and len(n.targets) == 1
               and isinstance(n.targets[0], ast.Name) and n.targets[0].id == irr and _is_max0_of(n.value, irr)]
@@ -121,28 +83,11 @@ def run(chk, prog, tier):
     chk.floor("C13.b-defs", n_defs, 6, "definitions of Irr reaching the clamp")
 
     # (2) the seasonal cap statement
-    caps = []
-    for n in walk_no_nested(fi.node):
-        if isinstance(n, ast.If) and not n.orelse and len(n.body) == 1 and isinstance(n.body[0], ast.Assign) \
-                and len(n.body[0].targets) == 1 and isinstance(n.body[0].targets[0], ast.Name) \
-                and n.body[0].targets[0].id == irr and any(isinstance(x, ast.Name) and x.id == f_season for x in ast.walk(n.test)):
-            caps.append(n)
+    caps = ctx["caps"]
     if len(caps) != 1:
         chk.violation("C13.b", where, "seasonal cap", f"expected exactly one seasonal-cap statement on {irr}, found {len(caps)}", loc=fi.loc())
         return
     cap = caps[0]
-
-    def subst(name_node):
-        nid = flow.node_of(name_node)
-        if nid is None:
-            return None
-        defs = flow.defs_reaching(name_node.id, nid)
-        if len(defs) == 1 and defs[0] != ENTRY and name_node.id not in (irr, cum):
-            st = cfg.nodes[defs[0]].ast
-            if isinstance(st, ast.Assign) and len(st.targets) == 1 and isinstance(st.targets[0], ast.Name):
-                return st.value
-        return None
-    nf = NF(subst=subst)
     want_guard = add(add(nf.nf(ast.Name(id=cum)), nf.nf(ast.Name(id=irr))), nf.nf(ast.Name(id=f_season)), -1)   # Cum + Irr - Max  (> 0)
     g_ok = False
     t = cap.test
@@ -175,40 +120,7 @@ def run(chk, prog, tier):
         else:
             chk.violation("C13.b", where, construct, f"a definition of {irr} bypasses the non-negativity clamp", loc=fi.loc(st) if st else fi.loc())
 
-    # (3) counter accumulation after the cap, by the returned Irr
-    accs = [n for n in walk_no_nested(fi.node)
-            if (isinstance(n, ast.Assign) and len(n.targets) == 1 and isinstance(n.targets[0], ast.Name) and n.targets[0].id == cum
-                and not _is_zero_lit(n.value)) or (isinstance(n, ast.AugAssign) and isinstance(n.target, ast.Name) and n.target.id == cum)]
-    if len(accs) != 1:
-        chk.violation("C13.b", where, f"{cum} accumulation", f"expected exactly one accumulation of {cum}, found {len(accs)}", loc=fi.loc())
-        return
-    acc = accs[0]
-    acc_node = flow.stmt_node[id(acc)]
-    if isinstance(acc, ast.Assign):
-        good_form = equal(nf.nf(acc.value), add(nf.nf(ast.Name(id=cum)), nf.nf(ast.Name(id=irr))))
-    else:
-        good_form = isinstance(acc.op, ast.Add) and equal(nf.nf(acc.value), nf.nf(ast.Name(id=irr)))
-    d_acc = set(flow.defs_reaching(irr, acc_node))
-    d_ret = set(flow.defs_reaching(irr, ret_node))
-    d_cap_out = set(flow.defs_reaching_exit_of(irr, flow.stmt_node[id(cap.body[0])])) | set(flow.defs_reaching(irr, cap_test_node))
-    cap_dom = cap_test_node in cfg.dominators()[acc_node]
-    cum_ret = set(flow.defs_reaching(cum, ret_node))
-    construct = norm(acc)
-    problems = []
-    if not good_form:
-        problems.append("the counter is not incremented by exactly the day's depth")
-    if not cap_dom:
-        problems.append("the accumulation is not dominated by the seasonal cap")
-    if d_acc != d_ret:
-        problems.append("the depth added to the counter is not the depth that is returned")
-    if not d_acc <= d_cap_out:
-        problems.append("the depth added to the counter was not subject to the cap")
-    if cum_ret != {acc_node}:
-        problems.append("the returned counter is not the accumulated one")
-    if problems:
-        chk.violation("C13.b", where, construct, "; ".join(problems), loc=fi.loc(acc))
-    else:
-        chk.ok("C13.b", where, construct, "Cum' = Cum + Irr after the cap, with the returned Irr")
+    counter_accumulation(chk, prog, "C13.b", ctx)
 
     # ------------------------------------------------------------ C13.c index spaces
     # Schedule read at the time-step counter
@@ -307,6 +219,108 @@ def run(chk, prog, tier):
                 chk.violation("C13.d", where, construct, f"parameter of strategy {m} is read outside the branch {f_method} == {m}", loc=fi.loc(rd))
     chk.assume("A-1")
     chk.exhaustive = True
+
+
+
+def irrigation_context(chk, prog):
+    """anchors of `irrigation`: formals by role, the returned depth / counter locals, the clamp and the cap"""
+    fi = _find_irrigation(prog)
+    chk.fn(fi.key)
+    where = f"{fi.module}:{fi.qualname}"
+    flow = flow_of(fi)
+    cfg = flow.cfg
+    params = fi.params
+    step = prog.func(STEP_FN)
+    call = [c for c, t in prog.calls_in(step) if getattr(t, "key", None) == fi.key]
+    if len(call) != 1:
+        raise AnalysisError("expected exactly one call of irrigation() in the step")
+    call = call[0]
+    formal_of = {}
+    for i, a in enumerate(call.args):
+        if isinstance(a, ast.Attribute):
+            formal_of[a.attr] = params[i]
+    need = ["MaxIrr", "MaxIrrSeason", "irr_cum", "irrigation_method"]
+    if any(k not in formal_of for k in need):
+        raise AnalysisError(f"the step no longer passes {[k for k in need if k not in formal_of]} to irrigation()")
+    ret = [n for n in walk_no_nested(fi.node) if isinstance(n, ast.Return)]
+    if len(ret) != 1 or not isinstance(ret[0].value, ast.Tuple):
+        raise AnalysisError("irrigation() no longer has a single tuple return")
+    assign = [n for n in walk_no_nested(step.node) if isinstance(n, ast.Assign) and n.value is call]
+    tg = assign[0].targets[0].elts if assign and isinstance(assign[0].targets[0], ast.Tuple) else []
+    pos_cum = next((i for i, t in enumerate(tg) if isinstance(t, ast.Attribute) and t.attr == "irr_cum"), None)
+    pos_irr = next((i for i, t in enumerate(tg) if isinstance(t, ast.Name) and t.id == "Irr"), None)
+    if pos_cum is None or pos_irr is None:
+        raise AnalysisError("cannot identify the returned irrigation depth / seasonal counter")
+    r_irr, r_cum = ret[0].value.elts[pos_irr], ret[0].value.elts[pos_cum]
+    if not (isinstance(r_irr, ast.Name) and isinstance(r_cum, ast.Name)):
+        raise AnalysisError("returned depth / counter are not plain locals")
+    irr, cum = r_irr.id, r_cum.id
+    f_season = formal_of["MaxIrrSeason"]
+
+    def subst(name_node):
+        nid = flow.node_of(name_node)
+        if nid is None:
+            return None
+        defs = flow.defs_reaching(name_node.id, nid)
+        if len(defs) == 1 and defs[0] != ENTRY and name_node.id not in (irr, cum):
+            st = cfg.nodes[defs[0]].ast
+            if isinstance(st, ast.Assign) and len(st.targets) == 1 and isinstance(st.targets[0], ast.Name):
+                return st.value
+        return None
+    caps = []
+    for n in walk_no_nested(fi.node):
+        if isinstance(n, ast.If) and not n.orelse and len(n.body) == 1 and isinstance(n.body[0], ast.Assign) \
+                and len(n.body[0].targets) == 1 and isinstance(n.body[0].targets[0], ast.Name) \
+                and n.body[0].targets[0].id == irr and any(isinstance(x, ast.Name) and x.id == f_season for x in ast.walk(n.test)):
+            caps.append(n)
+    return dict(fi=fi, where=where, flow=flow, cfg=cfg, params=params, step=step, call=call, formal_of=formal_of,
+                ret=ret[0], ret_node=flow.stmt_node[id(ret[0])], irr=irr, cum=cum, subst=subst, caps=caps, nf=NF(subst=subst))
+
+
+def counter_accumulation(chk, prog, rule, ctx=None):
+    """the seasonal counter is incremented after the cap, by the depth that is returned (C13.b / C06.c)"""
+    ctx = ctx or irrigation_context(chk, prog)
+    fi, where, flow, cfg, irr, cum, nf, ret_node = (ctx[k] for k in ("fi", "where", "flow", "cfg", "irr", "cum", "nf", "ret_node"))
+    if len(ctx["caps"]) != 1:
+        chk.violation(rule, where, "seasonal cap", f"expected exactly one seasonal-cap statement on {irr}, found {len(ctx['caps'])}", loc=fi.loc())
+        return
+    cap = ctx["caps"][0]
+    cap_test_node = flow.node_of(cap.test)
+    # (3) counter accumulation after the cap, by the returned Irr
+    accs = [n for n in walk_no_nested(fi.node)
+            if (isinstance(n, ast.Assign) and len(n.targets) == 1 and isinstance(n.targets[0], ast.Name) and n.targets[0].id == cum
+                and not _is_zero_lit(n.value)) or (isinstance(n, ast.AugAssign) and isinstance(n.target, ast.Name) and n.target.id == cum)]
+    if len(accs) != 1:
+        chk.violation(rule, where, f"{cum} accumulation", f"expected exactly one accumulation of {cum}, found {len(accs)}", loc=fi.loc())
+        return
+    acc = accs[0]
+    acc_node = flow.stmt_node[id(acc)]
+    if isinstance(acc, ast.Assign):
+        good_form = equal(nf.nf(acc.value), add(nf.nf(ast.Name(id=cum)), nf.nf(ast.Name(id=irr))))
+    else:
+        good_form = isinstance(acc.op, ast.Add) and equal(nf.nf(acc.value), nf.nf(ast.Name(id=irr)))
+    d_acc = set(flow.defs_reaching(irr, acc_node))
+    d_ret = set(flow.defs_reaching(irr, ret_node))
+    d_cap_out = set(flow.defs_reaching_exit_of(irr, flow.stmt_node[id(cap.body[0])])) | set(flow.defs_reaching(irr, cap_test_node))
+    cap_dom = cap_test_node in cfg.dominators()[acc_node]
+    cum_ret = set(flow.defs_reaching(cum, ret_node))
+    construct = norm(acc)
+    problems = []
+    if not good_form:
+        problems.append("the counter is not incremented by exactly the day's depth")
+    if not cap_dom:
+        problems.append("the accumulation is not dominated by the seasonal cap")
+    if d_acc != d_ret:
+        problems.append("the depth added to the counter is not the depth that is returned")
+    if not d_acc <= d_cap_out:
+        problems.append("the depth added to the counter was not subject to the cap")
+    if cum_ret != {acc_node}:
+        problems.append("the returned counter is not the accumulated one")
+    if problems:
+        chk.violation(rule, where, construct, "; ".join(problems), loc=fi.loc(acc))
+    else:
+        chk.ok(rule, where, construct, "Cum' = Cum + Irr after the cap, with the returned Irr")
+
 
 
 def _is_zero_lit(e):
